@@ -16,6 +16,15 @@ CLAIMED = {
         design_ref="7/C01",
         note="Published matrices are the object's claim; vectors above 30 bits use limbs; messages exhaustive for k<=8 (quick) / 12 (thorough), seeded above.",
         technique="TLA+ spec GF2/BlockCode + TLC: oracle model checking, TLC-enumerated generator matrices, trace validation of recorded calls"),
+    "C02": dict(
+        category="model_checking",
+        text="MC_Decoding shows on the spec's own constructions that nearest-codeword decoding corrects every pattern of weight <= t and that the "
+             "distance-layer oracle equals brute-force search. For every (code, decoder) pairing the real decoder is run on all codewords x all "
+             "error patterns of weight <= t (exhaustive when small, seeded per weight above) and on arbitrary words; Trace_BlockCode decides out = m, "
+             "the returned error pattern, and minimality of the distance to the code from the published generator matrix.",
+        design_ref="7/C02",
+        note="t from the advertised distance; ML clause for n<=12 (quick) / 16 (thorough); BCH mu<=4 quick, <=5 thorough; n<=31.",
+        technique="TLA+ spec BlockCode/Families + TLC: design-level model checking of decoding rules, trace validation of recorded decodings"),
     "C03": dict(
         category="model_checking",
         text="MC_Families shows the spec's own constructions of every family have exactly the closed-form (n,k,d), are cyclic / divisible by g(X) and "
